@@ -99,8 +99,10 @@ def run_reader(data, coffs=None):
         short = [e for e in stream.events
                  if e[0] == 'read' and e[2] not in (96, -1) and e[3] < e[2]]
     else:
+        st = getattr(stream, 'start', 0)
         short = [e for e in stream.events
-                 if e[0] == 'read' and e[1] in coffs and 0 <= e[3] < e[2]]
+                 if e[0] == 'read' and (e[1] - st) in coffs and
+                 0 <= e[3] < e[2]]
     neg = [e for e in stream.events if e[0] == 'read' and e[2] < 0]
     return recs, exc, short, neg
 
@@ -181,7 +183,11 @@ def check_file(data, layout, obs, tag, rng=None, cut_stride=1):
     intact = expected_records(layout)
     recs, exc, short, neg = run_reader(data)
     if exc is not None or common.diff_records(intact, recs) is not None:
-        obs.count('base_file_skipped_reader_disagrees_on_intact')
+        # (the same document is read from stream position 0 and from inside
+        # a longer stream, see common.read_records)
+        obs.violation('intact_file_misread:%s' % (
+            common.exc_mechanism(exc) if exc is not None else 'records'),
+            {'file': data}, repr(exc)[:200])
         return
     obs.count('base_files')
     fid = common_fid(data)
@@ -302,9 +308,46 @@ def gen_file(rng, small=True):
     return doc, data, layout
 
 
+def check_big(doc, obs):
+    """Sections of about 1 MiB and more: intact read, and cuts around the
+    section boundaries only (a full sweep would be quadratic)."""
+    data, layout = serialize(doc)
+    intact = expected_records(layout)
+    recs, exc, short, neg = run_reader(data)
+    obs.case(('big', len(data)), nontrivial=True)
+    obs.count('big_files')
+    if exc is not None or common.diff_records(intact, recs) is not None:
+        d = common.diff_records(intact, recs)
+        obs.violation('intact_file_misread:big:%s' % (
+            common.exc_mechanism(exc) if exc is not None else d[0]),
+            {'big_doc_sizes': [s.get('clen') for s in layout]},
+            repr(exc)[:200])
+        return
+    coffs = set(s['coff'] for s in layout if 'coff' in s)
+    for s in layout:
+        if 'coff' not in s:
+            continue
+        end = s['coff'] + s['clen']
+        for c in (s['coff'], s['coff'] + 1, end - 1, end, end + 1):
+            if 0 <= c <= len(data):
+                r2, e2, sh, ng = run_reader(data[:c], coffs)
+                shape = [f8a_shape(data[x['coff']:c], x.get('nl'),
+                                   x['options'].get('indent'))
+                         if 'coff' in x and x['coff'] < c < x['coff'] +
+                         x['clen'] else False for x in layout]
+                judge(r2, e2, sh, ng, intact,
+                      {'big_doc_sizes': [x.get('clen') for x in layout],
+                       'cut': c}, obs, 'truncation', shape)
+                obs.count('big_file_cuts')
+
+
 def run(ctx):
     obs = ctx.obs
     rng = ctx.rng
+    from mon.props.c01 import special_docs
+    for i, d in enumerate(special_docs()[:35]):
+        if ctx.mine(i):
+            check_big(d, obs)
     nfiles = ctx.share(ctx.pick(96, 5000))
     done = 0
     tries = 0
